@@ -83,3 +83,141 @@ def selection_geometry(rng, kept: list):
     chosen = choose_cells(rng, kept, cls)
     pts = [interior_point(kept[n]) for n in chosen]
     return 'sel-' + cls, shapely.MultiPoint(pts)
+
+
+# --------------------------------------------------------------------------------------------------------------------
+# closed meshes, and connectivity tables without a `_FillValue`
+#
+# A mesh that covers the whole globe (or any closed surface) has no boundary: every edge has two faces, every face a
+# neighbour across every side.  Its edge_face / face_face tables have no missing entry and are stored as plain integer
+# variables that declare no `_FillValue` — like the edge_node table of any mesh.  Clipping such a mesh *creates* the
+# boundary: the result has missing entries where the input had none.
+#
+# The meshes are rings of `w` nodes stacked between two caps (each cap one node — a pole — or one face), or a torus
+# (rings closed both ways), with integer lon / lat like coordinates: bipyramids (octahedron), tetrahedron, prisms, cube,
+# banded globes; band cells quads, triangle pairs or a mixture.  The faces that close the surface "the long way round"
+# overlap the others in the plane, as the cells of a global mesh do in lon / lat.
+
+def closed_mesh(rng) -> dict:
+    """{'nodes', 'faces'} of a closed surface: every edge is a side of exactly two faces (asserted)"""
+    pts: list = []
+
+    def node(x, y):
+        pts.append((x, y))
+        return len(pts) - 1
+    faces: list = []
+    split = rng.choice([0.0, 0.0, 0.5, 1.0])       # share of the band cells cut into two triangles
+
+    def band_cell(a, b, c, d):
+        if rng.random() < split:
+            if rng.random() < 0.5:
+                faces.extend([[a, b, c], [a, c, d]])
+            else:
+                faces.extend([[a, b, d], [b, c, d]])
+        else:
+            faces.append([a, b, c, d])
+    if rng.random() < 0.25:
+        w, h = rng.choice([3, 3, 4]), rng.choice([3, 3, 4])
+        ring = [[node(2 * i, 2 * j) for i in range(w)] for j in range(h)]
+        for j in range(h):
+            for i in range(w):
+                band_cell(ring[j][i], ring[j][(i + 1) % w], ring[(j + 1) % h][(i + 1) % w], ring[(j + 1) % h][i])
+    else:
+        w = rng.choice([3, 3, 4, 4, 5])
+        nring = rng.choice([1, 1, 2, 2, 3])
+        top, bottom = rng.choice(['pole', 'face']), rng.choice(['pole', 'face'])
+        if nring == 1 and top == 'face' and bottom == 'face':
+            top = 'pole'
+        ring = []
+        for r in range(nring):
+            row = []
+            for i in range(w):
+                bump = 1 if 0 < i < w - 1 else 0          # a cap face must not be a flat line
+                dy = (bump if (r == nring - 1 and top == 'face') else 0) - (bump if (r == 0 and bottom == 'face') else 0)
+                row.append(node(2 * i, 3 * r + dy))
+            ring.append(row)
+        for r in range(nring - 1):
+            for i in range(w):
+                band_cell(ring[r][i], ring[r][(i + 1) % w], ring[r + 1][(i + 1) % w], ring[r + 1][i])
+        for cap, row, y in ((bottom, ring[0], -3), (top, ring[-1], 3 * nring)):
+            if cap == 'face':
+                faces.append(list(row))
+            else:
+                p = node(w - 1, y)
+                for i in range(w):
+                    faces.append([p, row[i], row[(i + 1) % w]])
+    # either winding, any start vertex, shuffled numbering of faces and nodes, axes possibly swapped
+    for k, f in enumerate(faces):
+        if rng.random() < 0.4:
+            f = f[::-1]
+        s = rng.randrange(len(f))
+        faces[k] = f[s:] + f[:s]
+    rng.shuffle(faces)
+    perm = list(range(len(pts)))
+    rng.shuffle(perm)
+    swap = rng.random() < 0.3
+    nodes = [None] * len(pts)
+    for old, new in enumerate(perm):
+        x, y = pts[old]
+        nodes[new] = [y, x] if swap else [x, y]
+    faces = [[perm[n] for n in f] for f in faces]
+    sides: dict = {}
+    for f in faces:
+        for a, b in zip(f, f[1:] + f[:1]):
+            sides[frozenset((a, b))] = sides.get(frozenset((a, b)), 0) + 1
+    assert all(len(s) == 2 for s in sides) and set(sides.values()) == {2}, 'generator: the mesh is not closed'
+    assert all(shapely.Polygon([nodes[n] for n in f]).is_valid for f in faces), 'generator: degenerate face'
+    return {'nodes': nodes, 'faces': faces}
+
+
+TABLE_VARS = ('Mesh2_face_nodes', 'Mesh2_edge_nodes', 'Mesh2_face_edges', 'Mesh2_edge_faces', 'Mesh2_face_links')
+INT_DTYPES = {'i4big': 'i4', 'low': 'i4', 'neg': 'i4', 'u4max': 'u4', 'i8max': 'i8', 'i2': 'i2'}
+# the sets of optional tables of the closed meshes, walked in turn: mostly those with edge_face / face_face
+CLOSED_TABLES = [['edge_face'], ['edge_face', 'face_face'], ['edge_node', 'face_edge', 'edge_face', 'face_face'], ['face_face'],
+                 ['edge_node', 'edge_face'], ['face_edge', 'edge_face'], ['edge_node', 'face_edge'], ['face_edge', 'face_face']]
+
+
+def build(recipe: dict):
+    """`datasets.build`, plus the recipe key `enc.plain_complete_tables` (absent: exactly `datasets.build`): every
+    connectivity table in which no entry is missing is held as files hold such a table — a plain integer variable
+    (of the recipe's integer type) that declares no `_FillValue`, neither as attribute nor in its encoding."""
+    import numpy as np
+    import xarray as xr
+
+    from harness.gen import datasets as G
+    if recipe.get('conv') != 'ugrid' or not recipe.get('enc', {}).get('plain_complete_tables'):
+        return G.build(recipe)
+    built = G.build({k: v for k, v in recipe.items() if k != 'vary'})
+    built.recipe = recipe
+    ds = built.ds
+    dtype = INT_DTYPES[recipe['enc'].get('fill_spec', 'i4big')]
+    for name in TABLE_VARS:
+        if name not in ds.variables:
+            continue
+        da = ds[name]
+        vals = np.asarray(da.values)
+        fv = da.attrs.get('_FillValue')
+        missing = np.isnan(vals) if vals.dtype.kind == 'f' else (vals == fv if fv is not None else np.zeros(vals.shape, bool))
+        if missing.any():
+            continue
+        attrs = {k: v for k, v in da.attrs.items() if k != '_FillValue'}
+        was_coord = name in ds.coords
+        ds[name] = xr.DataArray(vals.astype(dtype), dims=da.dims, attrs=attrs)
+        if was_coord:
+            ds = ds.set_coords(name)
+    built.ds = ds
+    if recipe.get('vary'):
+        G.apply_vary(built, recipe['vary'])
+    return built
+
+
+def closed_recipe(rng, tier: str, k: int) -> dict:
+    """a UGRID recipe of a closed mesh: representation (index base, integer type, dimension order, …) as
+    `datasets.random_ugrid` draws it, optional tables `CLOSED_TABLES[k]`, complete tables without `_FillValue`"""
+    from harness.gen import datasets as G
+    recipe = G.random_recipe(rng, 'ugrid', tier, max_w=1, max_h=1, coords_as='vars', tables=list(CLOSED_TABLES[k % len(CLOSED_TABLES)]))
+    mesh = closed_mesh(rng)
+    recipe['nodes'], recipe['faces'] = mesh['nodes'], mesh['faces']
+    recipe['enc']['plain_complete_tables'] = True
+    recipe['vary'] = rng.choice([{}, {}, {'via_file': True}, {'chunk': 2}])
+    return recipe
